@@ -465,6 +465,25 @@ fn select_n_nodes(
         dc_count -= 1;
     }
 
+    if selected_nodes.len() < n {
+        // A candidate skipped above (the local node, or one already selected) is not
+        // replaced there, so the pass can come up short while eligible nodes remain:
+        // sweep every data center once more before giving up.
+        'sweep: for dc_nodes in data_centers.values_mut() {
+            for _ in 0..dc_nodes.len() {
+                if selected_nodes.len() >= n {
+                    break 'sweep;
+                }
+
+                if let Some(node) = dc_nodes.next() {
+                    if node != local_node && !selected_nodes.contains(&node) {
+                        selected_nodes.push(node);
+                    }
+                }
+            }
+        }
+    }
+
     if selected_nodes.len() >= n {
         debug!(selected_node = ?selected_nodes, "Nodes have been selected for the given parameters.");
         Ok(selected_nodes)
